@@ -332,7 +332,7 @@ func (c *Ctx) ruleR03d(rule string) {
 				P := ownParam(fn, "parsley", "Pos")
 				L := ownParam(fn, "data", "IntMap")
 				for _, cd := range ssax.DominatingConds(cl.Block()) {
-					if _, isC := c.curtailTest(fn, cd.Val, L, P, m.Get.Call.Args[1]); isC && cd.Truth {
+					if _, onTrue, isC := c.curtailTest(fn, cd.Val, L, P, m.Get.Call.Args[1]); isC && cd.Truth == onTrue {
 						ok2 = true
 					}
 				}
@@ -511,17 +511,60 @@ func (c *Ctx) keysConsumersOrderInsensitive(fn *ssa.Function) bool {
 				return false
 			}
 		}
+		// what the consumer returns must not be computed from a key or from its place in the slice: only which exit
+		// of the loop was taken (a property of the key SET) may decide it
 		for _, r := range ssax.Returns(g) {
 			for _, rv := range r.Results {
-				if _, isB := rv.Type().Underlying().(*types.Basic); isB {
-					if _, isC := rv.(*ssa.Const); !isC {
-						return false
-					}
+				if derivedFromSlice(rv, cv, map[ssa.Value]bool{}) {
+					return false
 				}
 			}
 		}
 	}
 	return true
+}
+
+// derivedFromSlice: v is computed (by data flow) from an element of slice s or from an index into it.
+func derivedFromSlice(v ssa.Value, s ssa.Value, seen map[ssa.Value]bool) bool {
+	if seen[v] {
+		return false
+	}
+	seen[v] = true
+	switch x := v.(type) {
+	case *ssa.IndexAddr:
+		return x.X == s || derivedFromSlice(x.X, s, seen) || derivedFromSlice(x.Index, s, seen)
+	case *ssa.Const, *ssa.Parameter, *ssa.FreeVar, *ssa.Global, *ssa.Function, *ssa.Builtin:
+		return false
+	case *ssa.Phi:
+		// a loop index over s
+		for _, e := range x.Edges {
+			if derivedFromSlice(e, s, seen) {
+				return true
+			}
+		}
+		if x.Referrers() != nil {
+			for _, r := range *x.Referrers() {
+				if ia, ok := r.(*ssa.IndexAddr); ok && ia.X == s && ia.Index == ssa.Value(x) {
+					return true
+				}
+			}
+		}
+		return false
+	case *ssa.Call:
+		for _, a := range x.Call.Args {
+			if derivedFromSlice(a, s, seen) {
+				return true
+			}
+		}
+		return false
+	case ssa.Instruction:
+		for _, op := range x.Operands(nil) {
+			if *op != nil && derivedFromSlice(*op, s, seen) {
+				return true
+			}
+		}
+	}
+	return false
 }
 
 // recvKeyDefinedOnce: the receiver field used as cache key has exactly one store in the library, from
